@@ -3,7 +3,7 @@
 (* Trace validation of behaviour beyond the listed properties (advisory:   *)
 (* rejections are reported as EXTRA-DEVIATION by `./check extras`).        *)
 (***************************************************************************)
-EXTENDS Extras, Scanner, Striped, TLC, Json, IOUtils
+EXTENDS Extras, Scanner, Striped, Scores, TLC, Json, IOUtils
 
 VARIABLES l, st
 
@@ -47,6 +47,12 @@ Apply(s, e) ==
                   \/ e.sorted[i][1] < e.sorted[i + 1][1]
                   \/ (e.sorted[i][1] = e.sorted[i + 1][1] /\ e.sorted[i][2] <= e.sorted[i + 1][2])
              /\ {e.sorted[i] : i \in 1..Len(e.sorted)} = {e.hits[i] : i \in 1..Len(e.hits)}, "hit_order")
+    [] e.ev = "scores_accessors" ->
+         \* the accessors of spec/Scores.tla after resize(r, mi) on a used object
+         LET st2 == ScoresStep(ScoresInit, [op |-> "resize", r |-> e.r, mi |-> e.mi], 32).st IN
+         Res(/\ e.is_empty = (ScoresStep(st2, [op |-> "is_empty"], 32).obs = 1)
+             /\ e.max_index = ScoresStep(st2, [op |-> "max_index"], 32).obs
+             /\ e.default_empty, "striped_scores_accessors")
     [] e.ev = "alphabet" -> Res(AlphabetOK(e), "alphabet")
     [] e.ev = "info_content" ->
          LET x == InfoContent(e.m, e.pn, e.pd, e.K) IN
